@@ -870,3 +870,64 @@ impl<F: WithSmallOrderMulGroup<3>, CS: crate::poly::commitment::PolynomialCommit
         (g.constants.clone(), g.rotations.clone(), calcs)
     }
 }
+
+/// Verification hook: plain-data views of the compiled lookup and trash graphs of a proving key
+/// (same format as `verif_custom_gates_graph`), and a public wrapper of `get_rotation_idx`.
+#[cfg(feature = "verif-hooks")]
+impl<F: WithSmallOrderMulGroup<3>, CS: crate::poly::commitment::PolynomialCommitmentScheme<F>>
+    super::ProvingKey<F, CS>
+{
+    /// Constants, rotations and calculations of every graph of `ev.lookups`, then of `ev.trashcans`.
+    #[allow(clippy::type_complexity)]
+    pub fn verif_argument_graphs(
+        &self,
+    ) -> (Vec<(Vec<F>, Vec<i32>, Vec<String>)>, Vec<(Vec<F>, Vec<i32>, Vec<String>)>) {
+        fn vs(v: &ValueSource) -> String {
+            match v {
+                ValueSource::Constant(i) => format!("c{i}"),
+                ValueSource::Intermediate(i) => format!("t{i}"),
+                ValueSource::Fixed(c, r) => format!("f{c}.{r}"),
+                ValueSource::Advice(c, r) => format!("a{c}.{r}"),
+                ValueSource::Instance(c, r) => format!("i{c}.{r}"),
+                ValueSource::Challenge(i) => format!("h{i}"),
+                ValueSource::Beta() => "beta".into(),
+                ValueSource::Gamma() => "gamma".into(),
+                ValueSource::Theta() => "theta".into(),
+                ValueSource::TrashChallenge() => "trash".into(),
+                ValueSource::Y() => "y".into(),
+                ValueSource::PreviousValue() => "prev".into(),
+            }
+        }
+        fn dump<F: PrimeField>(g: &GraphEvaluator<F>) -> (Vec<F>, Vec<i32>, Vec<String>) {
+            let calcs = g
+                .calculations
+                .iter()
+                .map(|c| {
+                    let body = match &c.calculation {
+                        Calculation::Add(a, b) => format!("add({},{})", vs(a), vs(b)),
+                        Calculation::Sub(a, b) => format!("sub({},{})", vs(a), vs(b)),
+                        Calculation::Mul(a, b) => format!("mul({},{})", vs(a), vs(b)),
+                        Calculation::Square(a) => format!("square({})", vs(a)),
+                        Calculation::Double(a) => format!("double({})", vs(a)),
+                        Calculation::Negate(a) => format!("negate({})", vs(a)),
+                        Calculation::Horner(s, parts, f) => format!(
+                            "horner({};{};{})",
+                            vs(s),
+                            parts.iter().map(vs).collect::<Vec<_>>().join(","),
+                            vs(f)
+                        ),
+                        Calculation::Store(a) => format!("store({})", vs(a)),
+                    };
+                    format!("t{}={}", c.target, body)
+                })
+                .collect();
+            (g.constants.clone(), g.rotations.clone(), calcs)
+        }
+        (self.ev.lookups.iter().map(dump).collect(), self.ev.trashcans.iter().map(dump).collect())
+    }
+
+    /// `get_rotation_idx` (private to the crate).
+    pub fn verif_get_rotation_idx(idx: usize, rot: i32, rot_scale: i32, isize: i32) -> usize {
+        get_rotation_idx(idx, rot, rot_scale, isize)
+    }
+}
